@@ -100,6 +100,8 @@ func init() {
 				sort.Strings(kinds)
 				if why, ok := permittedMutators[u.Name()]; ok {
 					obs = append(obs, mkOb(c, "MUT.mutators", u, "writes storage it does not own", first, Proved, "documented in-place writer ("+strings.Join(kinds, ", ")+"): "+why, false))
+				} else if via, ok := c.privateHelperOf(u.Obj, func(n string) bool { _, p := permittedMutators[n]; return p }, 0); ok {
+					obs = append(obs, mkOb(c, "MUT.mutators", u, "writes storage it does not own", first, Proved, "private helper called only by the documented in-place writer "+via+" ("+strings.Join(kinds, ", ")+")", false))
 				} else if bang, ok := c.bangImplementations()[u.Name()]; ok {
 					obs = append(obs, mkOb(c, "MUT.mutators", u, "writes storage it does not own", first, Proved, "registered only as "+bang+": a name ending in `!` is the language's convention for an operation that changes its argument in place ("+strings.Join(kinds, ", ")+")", false))
 				} else if via, ok := c.privateHelperOf(u.Obj, func(n string) bool { _, p := c.bangImplementations()[n]; return p }, 0); ok {
@@ -223,9 +225,36 @@ func init() {
 				}
 				info := u.Pkg.TypesInfo
 				fc := c.cfgOf(u, nil)
+				// a sorting call: sort.S* / slices.S*, or a helper of the module every path of which makes one
+				// (`sortEntriesByKey(entries)` with `sort.Sort(entriesByKeyName(entries))` inside)
+				var sortsAlways func(fn *types.Func, depth int) bool
+				sortsAlways = func(fn *types.Func, depth int) bool {
+					if fn == nil {
+						return false
+					}
+					if fn.Pkg() != nil && (fn.Pkg().Path() == "sort" || fn.Pkg().Path() == "slices") && strings.HasPrefix(fn.Name(), "S") {
+						return true
+					}
+					hd := c.declOf[originOf(fn)]
+					if hd == nil || hd.Body == nil || depth > 2 {
+						return false
+					}
+					hu := FuncUnit{originOf(fn), hd, c.pkgOf[hd]}
+					hfc := c.cfgOf(hu, nil)
+					hinfo := hu.Pkg.TypesInfo
+					through := hfc.blocksWith(func(n ast.Node) bool {
+						for _, ce := range callsIn(n, false) {
+							if sortsAlways(Callee(hinfo, ce), depth+1) {
+								return true
+							}
+						}
+						return false
+					})
+					return len(through) > 0 && !hfc.exitReachableAvoiding(through, nil)
+				}
 				sorts := fc.blocksWith(func(n ast.Node) bool {
 					for _, ce := range callsIn(n, false) {
-						if fn := Callee(info, ce); fn != nil && fn.Pkg() != nil && (fn.Pkg().Path() == "sort" || fn.Pkg().Path() == "slices") && strings.HasPrefix(fn.Name(), "S") {
+						if sortsAlways(Callee(info, ce), 0) {
 							return true
 						}
 					}
